@@ -566,6 +566,9 @@ func (ex *Exec) ctxCancelled(o *Opaque) bool {
 		if c, ok := cur.Attrs["cancelled"]; ok && c.(*Term).B {
 			return true
 		}
+		if _, cut := cur.Attrs["nocancel"]; cut {
+			return false // context.WithoutCancel: cancellation of ancestors does not reach here
+		}
 		p, ok := cur.Attrs["parent"]
 		if !ok {
 			break
@@ -594,6 +597,16 @@ func (ex *Exec) ctxErr(o *Opaque) Value {
 }
 
 func (ex *Exec) ctxDone(o *Opaque) Value {
+	if ex.thr != nil {
+		// concurrency mode: one channel per context, ready whenever the context counts as cancelled
+		if ch, ok := o.Attrs["done"]; ok {
+			return ch
+		}
+		ex.nextID++
+		ch := &ChanV{ID: ex.nextID, Ctx: o}
+		o.Attrs["done"] = ch
+		return ch
+	}
 	// one channel per cancellable root
 	root := o
 	for {
